@@ -36,15 +36,6 @@ Proof.
   all: cfinish.
 Qed.
 
-Lemma asr_helper_correct t f a b : In (t, f) asr_table -> in_range t a -> in_range I64 b ->
-  ccall Gnu f [a; b] = Oval (wrap t (exact_asr t a b)).
-Proof.
-  intros H Ha Hb. apply in_rangeb_spec in Ha, Hb. unfold exact_asr.
-  table_cases H; injection H as <- <-.
-  all: csolve.
-  all: cfinish.
-Qed.
-
 (* every well-formed type has its helpers in the tables (the driver uses every type) *)
 Lemma shift_tables_complete t : wf_ity t ->
   (exists f, lookup1 t shl_table = Some f) /\ (exists f, lookup1 t shr_table = Some f) /\
